@@ -996,6 +996,38 @@ instance (s : State) : Decidable (TotalLendEq s) := by unfold TotalLendEq; infer
 instance (cfg : Cfg) (s : State) : Decidable (TotalBorrowedEq cfg s) := by unfold TotalBorrowedEq; infer_instance
 instance (cfg : Cfg) (s : State) : Decidable (TotalStableEq cfg s) := by unfold TotalStableEq; infer_instance
 
+/-! ## The id lists of the pool-asset records (decidable: evaluated on the REAL state projection)
+
+`LendIds` of (pool, asset) = the ids of the lend positions of that pool and asset, `BorrowIds` = the ids of the borrows whose pair lends
+OUT that asset of that pool (liquidated ones included, until the auction close deletes them) — as lists, in creation order, which is
+ascending id order: `DeleteIDFromAssetStatsMapping` finds an id by binary search. These lists are what `GetBorrows` (the liquidation
+sweeps of both generations) and the interest queries iterate. -/
+
+def lendIdsOf (ls : List Lend) (p a : Nat) : List Nat := (ls.filter fun l => l.pool == p && l.asset == a).map (·.id)
+def borrowIdsOf (cfg : Cfg) (bs : List Borrow) (p a : Nat) : List Nat :=
+  (bs.filter fun b => cfg.pairOut b.pairId == some (p, a)).map (·.id)
+
+def IdsOk (cfg : Cfg) (s : State) : Prop :=
+  ∀ st ∈ s.stats, st.lendIds = lendIdsOf s.lends st.pool st.asset ∧ st.borrowIds = borrowIdsOf cfg s.borrows st.pool st.asset
+
+instance (cfg : Cfg) (s : State) : Decidable (IdsOk cfg s) := by unfold IdsOk; infer_instance
+
+/-! ## The reserve ledger (decidable)
+
+For every asset the coins in the reserve module account are the genesis balance plus what the records say came in (funding messages,
+liquidation penalties, the reserve's share of repaid interest) minus what they say went out (rewards paid to lenders from the reserve,
+first-generation auction cover); the two halves `ReserveAmount` / `BuybackAmount` always agree. -/
+
+def ResLedger (cfg : Cfg) (bank0 : Bank) (s : State) : Prop :=
+  ∀ a, s.bank.get cfg.reserveAcct a = bank0.get cfg.reserveAcct a + (getResv s.resv a).flow
+
+/-- the same on a finite list of assets (what the driver evaluates) -/
+def resLedgerOn (cfg : Cfg) (bank0 : Bank) (s : State) (assets : List Nat) : Bool :=
+  assets.all fun a => s.bank.get cfg.reserveAcct a == bank0.get cfg.reserveAcct a + (getResv s.resv a).flow
+
+def HalvesEq (s : State) : Prop := ∀ r ∈ s.resv, r.reserve = r.buyback
+instance (s : State) : Decidable (HalvesEq s) := by unfold HalvesEq; infer_instance
+
 /-! ## The LTV comparison over the integers (decidable: the driver evaluates it on the REAL accepted operations)
 
 `CalcAssetPrice` is `Dec(amt)·Dec(price)/Dec(decimals)`: the product of two integer `Dec`s is exact, `Quo` truncates the big-integer
